@@ -1,0 +1,156 @@
+package rewriter
+
+import (
+	"go/ast"
+	"go/token"
+	"go/types"
+	"strconv"
+
+	"golang.org/x/tools/go/ast/astutil"
+)
+
+// A short variable declaration may redeclare variables declared earlier in the same block,
+// i.e., assign to them:
+//
+//	a := 1
+//	get := func() int { return a }
+//	Yield(a)
+//	a, b := 2, 3 // assigns to a, declares b
+//	Yield(get()) // 2
+//
+// but the stmts following a yield are moved into the body of a callback func lit,
+// which is a new scope, so `:=` would declare a NEW a there,
+// and the closures / pointers created before the yield keep the old one.
+// so, if a stmt containing yield sits between the declaration and the redeclaration,
+// the redeclared variables are assigned through temporaries
+//
+//	a, b := f()
+//	>>>
+//	ʌa1, b := f()
+//	a = ʌa1
+//
+// (constants and nil are assigned directly, they may have no type of their own)
+func (r *yieldRewriter) rewritePartialRedeclare(c *astutil.Cursor, n *ast.AssignStmt) {
+	if n.Tok != token.DEFINE || c.Index() < 0 {
+		return
+	}
+	var prev []ast.Stmt
+	switch p := c.Parent().(type) {
+	case *ast.BlockStmt:
+		prev = p.List[:c.Index()]
+	case *ast.CaseClause:
+		prev = p.Body[:c.Index()]
+	default:
+		return
+	}
+
+	info := r.pkg.TypesInfo
+	paired := len(n.Lhs) == len(n.Rhs)
+	rhsType := func(i int) types.Type {
+		if paired {
+			return info.TypeOf(n.Rhs[i])
+		}
+		if tup, ok := info.TypeOf(n.Rhs[0]).(*types.Tuple); ok && i < tup.Len() {
+			return tup.At(i).Type()
+		}
+		return nil
+	}
+
+	type redeclared struct {
+		idx    int
+		direct bool // constant or nil, assigned directly
+	}
+	var xs []redeclared
+	for i, lhs := range n.Lhs {
+		id, ok := lhs.(*ast.Ident)
+		if !ok || id.Name == "_" || info.Defs[id] != nil {
+			continue
+		}
+		obj := info.Uses[id]
+		if obj == nil || !r.yieldSinceDeclared(prev, obj) {
+			continue
+		}
+		if paired {
+			if tv := info.Types[n.Rhs[i]]; tv.Value != nil || tv.IsNil() {
+				xs = append(xs, redeclared{i, true})
+				continue
+			}
+		}
+		ty := rhsType(i)
+		if ty == nil || !types.AssignableTo(types.Default(ty), obj.Type()) {
+			return // e.g. untyped bool to named bool type, leave it alone
+		}
+		xs = append(xs, redeclared{i, false})
+	}
+	if len(xs) == 0 {
+		return
+	}
+
+	assign := &ast.AssignStmt{Tok: token.ASSIGN}
+	drop := map[int]bool{}
+	for _, x := range xs {
+		id := n.Lhs[x.idx].(*ast.Ident)
+		assign.Lhs = append(assign.Lhs, id)
+		if x.direct {
+			assign.Rhs = append(assign.Rhs, n.Rhs[x.idx])
+			drop[x.idx] = true
+		} else {
+			r.symCnt++
+			tmp := cstYieldFromRangeVar + id.Name + strconv.Itoa(r.symCnt)
+			n.Lhs[x.idx] = X.Ident(tmp)
+			assign.Rhs = append(assign.Rhs, X.Ident(tmp))
+		}
+	}
+	if len(drop) > 0 {
+		var lhs, rhs []ast.Expr
+		for i := range n.Lhs {
+			if !drop[i] {
+				lhs = append(lhs, n.Lhs[i])
+				rhs = append(rhs, n.Rhs[i])
+			}
+		}
+		n.Lhs, n.Rhs = lhs, rhs
+	}
+	c.InsertAfter(assign)
+}
+
+// whether a stmt containing yield sits between the declaration of obj and the end of stmts
+// (params and named results are declared before the first stmt)
+func (r *yieldRewriter) yieldSinceDeclared(stmts []ast.Stmt, obj types.Object) bool {
+	info := r.pkg.TypesInfo
+	declares := func(stmt ast.Stmt) bool {
+		switch s := stmt.(type) {
+		case *ast.AssignStmt:
+			if s.Tok == token.DEFINE {
+				for _, lhs := range s.Lhs {
+					if id, ok := lhs.(*ast.Ident); ok && info.Defs[id] == obj {
+						return true
+					}
+				}
+			}
+		case *ast.DeclStmt:
+			if decl, ok := s.Decl.(*ast.GenDecl); ok {
+				for _, spec := range decl.Specs {
+					if spec, ok := spec.(*ast.ValueSpec); ok {
+						for _, id := range spec.Names {
+							if info.Defs[id] == obj {
+								return true
+							}
+						}
+					}
+				}
+			}
+		}
+		return false
+	}
+	yield := false
+	for i := len(stmts) - 1; i >= 0; i-- {
+		if declares(stmts[i]) {
+			return yield
+		}
+		if !r.mustNoYield(stmts[i]) {
+			yield = true
+		}
+	}
+	return yield
+}
